@@ -618,6 +618,7 @@ fn catalogue(tc: &mut Tc<'_>) -> u64 {
 	shape_32(cx);
 	shape_33(cx);
 	shape_34(cx);
+	shape_35(cx);
 	cx.cases
 }
 
@@ -926,6 +927,67 @@ fn shape_34(cx: &mut Cx<'_, '_>) {
 	ROUTE_CHECK.with(|c| c.set(true));
 }
 
+fn shape_35(cx: &mut Cx<'_, '_>) {
+	// collections whose contents change after construction - and after their first use: operated
+	// on while empty, then grown through Extend / child_mut / AsMut, then shrunk
+	macro_rules! grown {
+		($name:expr, $coll:ident, $leaf:ident, $ex:ident $(, $readable:expr)?) => {{
+			let mut ids: Vec<LockId> = Vec::new();
+			let mut c = $coll::new(Vec::new());
+			cx.label = format!("{}: empty", $name);
+			$ex!(cx, c, ids $(, $readable)?);
+			let a = leaf!(cx, ids, $leaf);
+			let b = leaf!(cx, ids, $leaf);
+			c.extend([a, b]);
+			cx.label = format!("{}: after extend([a, b])", $name);
+			$ex!(cx, c, ids $(, $readable)?);
+			let d = leaf!(cx, ids, $leaf);
+			c.child_mut().push(d);
+			cx.label = format!("{}: after child_mut().push(c)", $name);
+			$ex!(cx, c, ids $(, $readable)?);
+			let e = leaf!(cx, ids, $leaf);
+			AsMut::<Vec<_>>::as_mut(&mut c).push(e);
+			cx.label = format!("{}: after as_mut().push(d)", $name);
+			$ex!(cx, c, ids $(, $readable)?);
+			let gone = c.child_mut().remove(0);
+			drop(gone);
+			ids.remove(0);
+			cx.label = format!("{}: after child_mut().remove(0)", $name);
+			$ex!(cx, c, ids $(, $readable)?);
+			c.child_mut().clear();
+			ids.clear();
+			cx.label = format!("{}: emptied again", $name);
+			$ex!(cx, c, ids $(, $readable)?);
+			let f = leaf!(cx, ids, $leaf);
+			c.extend(Some(f));
+			cx.label = format!("{}: regrown from empty", $name);
+			$ex!(cx, c, ids $(, $readable)?);
+		}};
+	}
+	grown!("Retrying<Vec<M>>", RetryingLockCollection, M, exercise_w);
+	grown!("Retrying<Vec<R>>", RetryingLockCollection, R, exercise, true);
+	grown!("Owned<Vec<M>>", OwnedLockCollection, M, exercise_w);
+	grown!("Owned<Vec<R>>", OwnedLockCollection, R, exercise, true);
+	{
+		// FromIterator / Default, then extend
+		let mut ids: Vec<LockId> = Vec::new();
+		let mut c: RetryingLockCollection<Vec<R>> = Default::default();
+		cx.label = "Retrying::default()".into();
+		exercise!(cx, c, ids, true);
+		c.extend(vec![leaf!(cx, ids, R), leaf!(cx, ids, R), leaf!(cx, ids, R)]);
+		cx.label = "Retrying::default() + extend(3)".into();
+		exercise!(cx, c, ids, true);
+		let mut ids2: Vec<LockId> = Vec::new();
+		let v = vec![leaf!(cx, ids2, M), leaf!(cx, ids2, M)];
+		let mut c: OwnedLockCollection<Vec<M>> = v.into_iter().collect();
+		cx.label = "Owned::from_iter(2)".into();
+		exercise_w!(cx, c, ids2);
+		c.extend(Some(leaf!(cx, ids2, M)));
+		cx.label = "Owned::from_iter(2) + extend(1)".into();
+		exercise_w!(cx, c, ids2);
+	}
+}
+
 pub fn run(cfg: &RunCfg) -> Report {
 	let reps: u64 = if cfg.thorough { 64 } else { 4 };
 	let (mut rep, _) = par_run(cfg, reps * 2, |i, rep| {
@@ -992,6 +1054,6 @@ pub fn run(cfg: &RunCfg) -> Report {
 			("ops", J::s("declared order is the reverse of the sorted order; guard/data position i must reach member i")),
 		]));
 	}
-	rep.rule = "static catalogue of happylock's own container impls under the audit locks: tuples of arity 1..7 (Mutex / RwLock / Poisonable mixes; all-Sharable ones also in read mode), arrays [T; 0..4], Box<[T]>, Vec, nested owned/retrying/boxed/poisonable collections, &T and &mut T, locks with ZERO-SIZED payloads (Mutex<Z> / RwLock<Z>: directly, Poisonable-wrapped, in tuples / arrays / Vec, next to ordinary members; position checks off, hold checks on), tuples/arrays/boxed slices of references listed in reverse and mixed orders, each through Boxed / Ref / Owned / Retrying {new, new_ref, try_new}; per collection: lock, try_lock free and with every single position pre-held (shared and exclusive), scoped_lock, and the read variants; monitors: holds exactly the leaves, position i reaches member i (payload names its lock), failed try leaves the owner table unchanged, closure runs once with all locks held; evaluations = API calls checked; distinct = catalogue entries".into();
+	rep.rule = "static catalogue of happylock's own container impls under the audit locks: tuples of arity 1..7 (Mutex / RwLock / Poisonable mixes; all-Sharable ones also in read mode), arrays [T; 0..4], Box<[T]>, Vec, nested owned/retrying/boxed/poisonable collections, &T and &mut T, collections that are used while empty and then grown / shrunk through Extend, child_mut and AsMut (re-exercised after every change), locks with ZERO-SIZED payloads (Mutex<Z> / RwLock<Z>: directly, Poisonable-wrapped, in tuples / arrays / Vec, next to ordinary members; position checks off, hold checks on), tuples/arrays/boxed slices of references listed in reverse and mixed orders, each through Boxed / Ref / Owned / Retrying {new, new_ref, try_new}; per collection: lock, try_lock free and with every single position pre-held (shared and exclusive), scoped_lock, and the read variants; monitors: holds exactly the leaves, position i reaches member i (payload names its lock), failed try leaves the owner table unchanged, closure runs once with all locks held; evaluations = API calls checked; distinct = catalogue entries".into();
 	rep
 }
